@@ -51,6 +51,41 @@ CHECKS = {
         "exhaustive": {"quick": True, "thorough": True},
         "assumptions": ["exhaustive refers to the 501 encodings x 16 flag nibbles table; multi-instruction sums are sampled"],
     },
+    "C03": {
+        "title": "translation cache transparent across ROM bank switches",
+        "level": "exploration",
+        "rule": "cases = steps of bank-switch-heavy generated programs (MBC1/MBC3, 8-128 banks, every bank different code at the same entry addresses, bank selects through every "
+                "register area, revisits, pairs of banks back to back, fall-through from bank 0 into the switchable bank). Three executions in lock-step: jit build with a warm "
+                "cache, jit build with the cache emptied before every block, and the interpreter-only build (recorded digest stream); plus an invariant monitor on the cache "
+                "view (hook H10): on every cache hit, the bytes the entry was translated from must equal the bytes mapped at PC now. distinct_nontrivial = distinct programs",
+        "phases": [
+            {"variant": "interp-dbg", "monitor": "c03", "shards": 16, "args": {"role": "write"}, "name": "c03-interpreter-stream"},
+            {"variant": "jit-dbg", "monitor": "c03", "shards": 16, "args": {"role": "compare"}, "name": "c03-jit-warm-and-cold"},
+        ],
+        "floors": {"quick": {"steps-compared-with-interpreter-build": 500_000, "cache-hits-after-a-bank-switch": 5_000, "jit:bank-register-writes": 20_000, "cache-entries-observed": 2_000},
+                   "thorough": {"steps-compared-with-interpreter-build": 5_000_000}},
+        "exhaustive": {"quick": False, "thorough": False},
+        "assumptions": ["a bank switch inside a block that executes from the switched bank is not generated (block-granular translation vs per-instruction fetch; see DESIGN)"],
+    },
+    "C04": {
+        "title": "recompiler on/off equivalence for whole programs",
+        "level": "exploration",
+        "rule": "cases = steps of structured generated programs (loops, CALL/RET nests, interrupt handlers with RETI, timer/LCD/VBlank interrupts timed by the program itself, HALT, "
+                "OAM DMA through an HRAM routine, code executed from work RAM, bank switches, serial output) advanced with the same symmetric block stepper in a build without "
+                "and a build with the recompiler; after every step a 17-part digest (registers/IME/run state, every RAM, I/O registers, IF/IE, timer phase, LCD position, DMA "
+                "progress, joypad latch, MBC registers, serial output so far, frame buffers every 64 steps) must be equal. distinct_nontrivial = distinct programs",
+        "phases": [
+            {"variant": "interp-dbg", "monitor": "c04", "shards": 16, "args": {"role": "write"}, "name": "c04-interpreter-stream"},
+            {"variant": "jit-dbg", "monitor": "c04", "shards": 16, "args": {"role": "compare"}, "name": "c04-jit-compare"},
+            {"variant": "interp-rel", "monitor": "c04", "shards": 16, "args": {"role": "write"}, "name": "c04-interpreter-stream-release", "tiers": ("thorough",)},
+            {"variant": "jit-rel", "monitor": "c04", "shards": 16, "args": {"role": "compare"}, "name": "c04-jit-compare-release", "tiers": ("thorough",)},
+        ],
+        "floors": {"quick": {"steps-compared-with-interpreter-build": 600_000, "jit:dispatches:vblank": 100, "jit:dispatches:timer": 1_000, "jit:dma-transfers": 300,
+                             "jit:ram-resident-blocks": 5_000, "jit:suspended-steps": 100_000, "jit:serial-bytes": 500},
+                   "thorough": {"steps-compared-with-interpreter-build": 10_000_000}},
+        "exhaustive": {"quick": False, "thorough": False},
+        "assumptions": ["both builds include the observation hooks; the hooks-off binaries are compared end to end under C18"],
+    },
     "C05": {
         "title": "interpreter data semantics vs SM83 reference",
         "level": "exploration",
